@@ -185,7 +185,9 @@ def line_structure():
 def content():
     def run():
         res = []
-        for src, needle in (('10 A$="a  b   c "\n', '"a  b   c "'), ("10 DATA  x  y ,2\n", "x  y "), ("10 REM  two  blanks\n", "  two  blanks"), ("10 'c  d\n", "c  d")):
+        for src, needle in (('10 A$="a  b   c "\n', '"a  b   c "'), ("10 DATA  x  y ,2\n", "x  y "), ("10 REM  two  blanks\n", "  two  blanks"), ("10 'c  d\n", "c  d"),
+                            ('10 INPUT "NAME  ";A$\n', '"NAME  ? "'), ('10 INPUT "  a  b ";A$\n', '"  a  b ? "'), ('10 LINE INPUT " x  ";A$\n', '" x  "'),
+                            ('10 PRINT "  lead";" trail  "\n', '" trail  "'), ('10 IF A$="  " THEN 10\n', '"  "')):
             got = convert_or_refusal(src)
             res.append(ob("content/%s" % src.strip(), got[0] == "ok" and needle in got[1], "contains %r" % needle, got[1]))
         # blanks that are content stay content wherever the line stands: last line of the text (with every file ending) or not
